@@ -1229,3 +1229,22 @@ static Expr gen_bool(Src& s, GenCtx& g, int depth)
   }
   }
 }
+
+// integer literals used where a string offset is expected (`at`, range bounds,
+// `#a in`, `of ... at/in`): buffers place string instances exactly there
+static void collect_offset_targets(const Expr& e, std::vector<int64_t>& out, bool ctx = false)
+{
+  if (e.k == Expr::INT_LIT && ctx && e.ival >= 0 && e.ival < 1500)
+    out.push_back(e.ival);
+  bool sc = e.k == Expr::FOUND_AT || e.k == Expr::FOUND_IN || e.k == Expr::COUNT_IN || (e.k == Expr::OF && e.of_form != 0);
+  for (auto& c : e.ch) collect_offset_targets(c, out, sc || (ctx && e.k == Expr::ARITH));
+  for (auto& c : e.qe) collect_offset_targets(c, out, false);
+}
+
+// overwrite `B` so that `inst` sits exactly at offset `t`
+static void place_at(bytes& B, size_t t, const bytes& inst)
+{
+  if (B.size() < t + inst.size())
+    B.resize(t + inst.size(), 'x');
+  B.replace(t, inst.size(), inst);
+}
